@@ -61,14 +61,14 @@ theorem length_le_encLabels (ls : List Bytes) : ls.length ≤ (encLabels ls).len
 /-- reading the labels `ls` laid out at `pos` takes `ls.length` iterations and leaves the loop at
     the byte after them. -/
 theorem parseNameF_labels (msg : Bytes) (ls : List Bytes) (h : LabelsOk ls) :
-    ∀ (f pos : Nat) (acc : List Bytes) (ret : Option Nat) (Y : Bytes),
+    ∀ (f pos seg : Nat) (acc : List Bytes) (ret : Option Nat) (Y : Bytes),
       msg.drop pos = encLabels ls ++ Y →
-      parseNameF msg (f + ls.length) pos acc ret
-        = parseNameF msg f (pos + (encLabels ls).length) (acc ++ ls) ret := by
+      parseNameF msg (f + ls.length) pos seg acc ret
+        = parseNameF msg f (pos + (encLabels ls).length) seg (acc ++ ls) ret := by
   induction ls with
-  | nil => intro f pos acc ret Y _; simp [encLabels]
+  | nil => intro f pos seg acc ret Y _; simp [encLabels]
   | cons l ls ih =>
-    intro f pos acc ret Y hd
+    intro f pos seg acc ret Y hd
     have hl : LabelOk l := h l (by simp)
     have ih := ih (fun x hx => h x (by simp [hx]))
     obtain ⟨h0, h63, hutf, hace⟩ := hl
@@ -85,23 +85,23 @@ theorem parseNameF_labels (msg : Bytes) (ls : List Bytes) (h : LabelsOk ls) :
     simp only [parseNameF, hb, hn]
     rw [if_neg (by omega), if_neg (by omega), if_pos (by omega)]
     simp only [hlabel, hace, hutf]
-    rw [ih _ _ _ _ _ hnext]
+    rw [ih _ _ _ _ _ _ hnext]
     simp only [encLabels, List.length_cons, List.length_append, List.append_assoc, List.singleton_append]
     rw [show pos + 1 + l.length + (encLabels ls).length = pos + (l.length + (encLabels ls).length + 1) by omega]
     simp
 
-theorem parseNameF_zero {msg : Bytes} {pos : Nat} {Y : Bytes} (f : Nat) (acc : List Bytes)
+theorem parseNameF_zero {msg : Bytes} {pos : Nat} {Y : Bytes} (f seg : Nat) (acc : List Bytes)
     (ret : Option Nat) (h : msg.drop pos = 0 :: Y) :
-    parseNameF msg (f + 1) pos acc ret = ⟨none, acc, ret.getD (pos + 1)⟩ := by
+    parseNameF msg (f + 1) pos seg acc ret = ⟨none, acc, ret.getD (pos + 1)⟩ := by
   simp [parseNameF, readByte_of_drop h]
 
 theorem encPtr_bytes (t : Nat) (h : t < 16384) :
     (UInt8.ofNat (192 + t / 256)).toNat = 192 + t / 256 ∧ (UInt8.ofNat (t % 256)).toNat = t % 256 :=
   ⟨toNat_ofNat_lt _ (by omega), toNat_ofNat_lt _ (by omega)⟩
 
-theorem parseNameF_ptr {msg : Bytes} {pos t : Nat} {Y : Bytes} (f : Nat) (acc : List Bytes)
-    (ret : Option Nat) (ht : t < 16384) (h : msg.drop pos = encPtr t ++ Y) :
-    parseNameF msg (f + 1) pos acc ret = parseNameF msg f t acc (some (ret.getD (pos + 2))) := by
+theorem parseNameF_ptr {msg : Bytes} {pos t : Nat} {Y : Bytes} (f seg : Nat) (acc : List Bytes)
+    (ret : Option Nat) (ht : t < 16384) (hseg : t < seg) (h : msg.drop pos = encPtr t ++ Y) :
+    parseNameF msg (f + 1) pos seg acc ret = parseNameF msg f t t acc (some (ret.getD (pos + 2))) := by
   obtain ⟨h1, h2⟩ := encPtr_bytes t ht
   simp only [encPtr, List.cons_append, List.nil_append] at h
   have hb := readByte_of_drop h
@@ -110,7 +110,8 @@ theorem parseNameF_ptr {msg : Bytes} {pos t : Nat} {Y : Bytes} (f : Nat) (acc : 
     exact readByte_of_drop (by simpa using this)
   simp only [parseNameF, hb, hb2, h1, h2]
   rw [if_neg (by omega), if_pos (by omega)]
-  congr 1; omega
+  have ht' : (192 + t / 256) % 64 * 256 + t % 256 = t := by omega
+  rw [ht', if_neg (by omega)]
 
 /-- RFC 1035 §4.1.4 well-formed (possibly compressed) name starting at offset `s`: a sequence of
     labels ended either by the root label, or by a pointer to a *prior* well-formed name whose
@@ -130,23 +131,32 @@ theorem WfName.end_le {msg : Bytes} {s e : Nat} {ls : List Bytes} (h : WfName ms
   | plain s ls Y _ hd => have := length_ge_of_drop hd; simp at this; omega
   | ptr s ls1 t ls2 e' Y _ hd _ _ _ => have := length_ge_of_drop hd; simp [encPtr] at this; omega
 
-/-- the decoder follows a well-formed name with any fuel `≥ e` (in particular `msg.length + 1`) -/
+theorem WfName.start_lt {msg : Bytes} {s e : Nat} {ls : List Bytes} (h : WfName msg s ls e) : s < e := by
+  cases h <;> omega
+
+/-- the decoder follows a well-formed name with any fuel `≥ e` (in particular `nameFuel msg`) and
+    any `segment_start ≥ s` (the pointers of a well-formed name point before the name's start) -/
 theorem parseNameF_wf {msg : Bytes} {s e : Nat} {ls : List Bytes} (h : WfName msg s ls e) :
-    ∀ (f : Nat) (acc : List Bytes) (ret : Option Nat), e ≤ f →
-      parseNameF msg f s acc ret = ⟨none, acc ++ ls, ret.getD e⟩ := by
+    ∀ (f seg : Nat) (acc : List Bytes) (ret : Option Nat), e ≤ f → s ≤ seg →
+      parseNameF msg f s seg acc ret = ⟨none, acc ++ ls, ret.getD e⟩ := by
   induction h with
   | plain s ls Y hok hd =>
-    intro f acc ret hf
+    intro f seg acc ret hf _
     have hlen := length_le_encLabels ls
     obtain ⟨f', rfl⟩ : ∃ f', f = (f' + 1) + ls.length := ⟨f - ls.length - 1, by omega⟩
-    rw [parseNameF_labels msg ls hok _ _ _ _ _ hd, parseNameF_zero _ _ _ (drop_add_of_drop hd)]
-  | ptr s ls1 t ls2 e' Y hok hd ht _ hle ih =>
-    intro f acc ret hf
+    rw [parseNameF_labels msg ls hok _ _ _ _ _ _ hd, parseNameF_zero _ _ _ _ (drop_add_of_drop hd)]
+  | ptr s ls1 t ls2 e' Y hok hd ht hw hle ih =>
+    intro f seg acc ret hf hseg
     have hlen := length_le_encLabels ls1
+    have hlt := hw.start_lt
     obtain ⟨f', rfl⟩ : ∃ f', f = (f' + 1) + ls1.length := ⟨f - ls1.length - 1, by omega⟩
-    rw [parseNameF_labels msg ls1 hok _ _ _ _ _ hd, parseNameF_ptr _ _ _ ht (drop_add_of_drop hd),
-      ih f' _ _ (by omega)]
+    rw [parseNameF_labels msg ls1 hok _ _ _ _ _ _ hd,
+      parseNameF_ptr _ _ _ _ ht (by omega) (drop_add_of_drop hd), ih f' _ _ _ (by omega) (Nat.le_refl _)]
     simp
+
+theorem le_nameFuel (msg : Bytes) : msg.length ≤ nameFuel msg := by
+  unfold nameFuel
+  exact Nat.le_trans (Nat.le_succ _) (Nat.le_mul_of_pos_right _ (Nat.succ_pos _))
 
 /-! ### plain (uncompressed) names as the encoder emits them -/
 
@@ -156,7 +166,8 @@ theorem parseName_encName {msg : Bytes} {pos : Nat} {ls : List Bytes} {Y : Bytes
   rw [encName_eq ls hok] at hd ⊢
   have hd' : msg.drop pos = encLabels ls ++ 0 :: Y := by simpa using hd
   have hw := WfName.plain (msg := msg) pos ls Y hok hd'
-  have := parseNameF_wf hw (msg.length + 1) [] none (by have := hw.end_le; omega)
+  have := parseNameF_wf hw (nameFuel msg) pos [] none
+    (by have := hw.end_le; have := le_nameFuel msg; omega) (Nat.le_refl _)
   simpa [parseName, Nat.add_assoc] using this
 
 /-! ### fixed-width fields -/
